@@ -51,6 +51,8 @@ type Case struct {
 	StopAtMs int `json:"stop_at_ms"`
 	// AssertKnown disables the classification of the listed known findings (set by their replays only)
 	AssertKnown bool `json:"assert_known,omitempty"`
+	// Repeat: replays only - run the case that many times (schedule-dependent findings)
+	Repeat int `json:"repeat,omitempty"`
 }
 
 func genNode(t *rapid.T, depth int, budget *int, isRoot bool, rootMustLive bool) proctree.Node {
@@ -281,10 +283,8 @@ func check(t ev.T, test string, c Case) {
 	}
 
 	// ---- (1) the call returns within the bound
-	// Execute returns nil exactly when the process itself exited (with status 0, as every helper does) before any signal
-	// reached it: this is how "the process had already ended when the stop was requested" is told apart from "the stop
-	// reached the process", without sampling /proc around the stop request.
 	var execErr error
+	_ = execErr
 	released := func() bool {
 		switch {
 		case c.Start == "execute" || c.Start == "supervisor":
@@ -328,6 +328,17 @@ func check(t ev.T, test string, c Case) {
 		}
 		return ms
 	}
+	// did the process itself (the root of the tree) reach the end of its script, as opposed to having been stopped? (Execute's
+	// own result cannot tell: exec reports the context error whenever the context ended before Wait returned, even if
+	// the process had exited by itself a moment earlier)
+	rootEnded := func() bool {
+		for _, m := range proctree.Registered(dir) {
+			if m.Node == "r" && proctree.EndedByItself(dir, "r", m.Pid) {
+				return true
+			}
+		}
+		return false
+	}
 	if !ok {
 		ms := collect()
 		ps := proctree.Scan(dir, ms)
@@ -356,7 +367,7 @@ func check(t ev.T, test string, c Case) {
 			ev.Inconclusive("the stopping call did not return within the bound, nor once the harness had killed the tree")
 			return
 		}
-		if len(inGroup) > 0 && c.Start == "execute" && execErr == nil && !c.AssertKnown {
+		if len(inGroup) > 0 && c.Start == "execute" && rootEnded() && !c.AssertKnown {
 			ev.Exclude("C05-R12c the process itself had already exited when the stop was requested: Execute keeps waiting for the descendants that hold its pipes")
 			ev.Class("known C05-R12c")
 			return
@@ -445,7 +456,7 @@ func check(t ev.T, test string, c Case) {
 			break
 		}
 	}
-	if len(left) > 0 && c.Start == "execute" && execErr == nil && !c.AssertKnown {
+	if len(left) > 0 && c.Start == "execute" && rootEnded() && !c.AssertKnown {
 		ev.Exclude("C05-R12c the process itself had already exited when the stop was requested: Execute keeps waiting for the descendants that hold its pipes")
 		ev.Class("known C05-R12c")
 		return
@@ -514,8 +525,17 @@ func init() {
 		if err := json.Unmarshal(raw, &c); err != nil {
 			t.Fatalf("HARNESS: %v", err)
 		}
-		check(t, "TestTrees", c)
+		for i := 0; i < maxInt(1, c.Repeat); i++ {
+			check(t, "TestTrees", c)
+		}
 	})
+}
+
+func maxInt(a, b int) int {
+	if a > b {
+		return a
+	}
+	return b
 }
 
 func TestReplay(t *testing.T)      { ev.RunReplay(t) }
